@@ -1080,6 +1080,9 @@ func (P *Prog) decideInvoke(r *Result, g *modCG, fn *ssa.Function, s panicSite, 
 			if !valid && P.paramValidAtCallSites(rv, 0) {
 				valid = true
 			}
+			if !valid && P.valueOfParamValidAtCallSites(rv) {
+				valid = true
+			}
 			if valid {
 				why = "reflect.Value.Type() of a valid value"
 				// Type methods with kind requirements
@@ -1574,4 +1577,61 @@ func (P *Prog) onlyCalledBehindUnsetHook(fn *ssa.Function) bool {
 		}
 	}
 	return true
+}
+
+// valueOfParamValidAtCallSites: rv is reflect.ValueOf(p) taken inside an unexported function of its `any` parameter p
+// (the caller used to pass the reflect.Value, now the callee reflects again): valid when at every call site the
+// caller has itself reflected on the same argument and established its kind there (`x := reflect.ValueOf(val);
+// switch x.Kind() { case reflect.Map: ... newAnyMapDataProvider[T](val)`).
+func (P *Prog) valueOfParamValidAtCallSites(rv ssa.Value) bool {
+	c, ok := cv(rv).(*ssa.Call)
+	if !ok {
+		return false
+	}
+	if ci := callOf(c); ci.static == nil || ci.static.String() != "reflect.ValueOf" || len(c.Call.Args) != 1 {
+		return false
+	}
+	p, ok := cv(c.Call.Args[0]).(*ssa.Parameter)
+	if !ok {
+		return false
+	}
+	fn := p.Parent()
+	idx := -1
+	for i, q := range fn.Params {
+		if q == p {
+			idx = i
+		}
+	}
+	n, okAll := 0, true
+	for _, site := range P.buildModCG().sites[originOf(fn)] {
+		in, isInstr := site.(ssa.Instruction)
+		if !isInstr {
+			continue
+		}
+		ci := callOf(in)
+		if ci == nil || idx < 0 || idx >= len(ci.args()) {
+			okAll = false
+			continue
+		}
+		n++
+		a := cv(ci.args()[idx])
+		b := in.Block()
+		found := false
+		eachInstr(in.Parent(), func(_ *ssa.BasicBlock, _ int, in2 ssa.Instruction) {
+			c2, ok := in2.(*ssa.Call)
+			if !ok || found {
+				return
+			}
+			if ci2 := callOf(c2); ci2.static == nil || ci2.static.String() != "reflect.ValueOf" || len(c2.Call.Args) != 1 || cv(c2.Call.Args[0]) != a {
+				return
+			}
+			if is, _ := P.kindFacts(b, c2); len(is) > 0 {
+				found = true
+			}
+		})
+		if !found {
+			okAll = false
+		}
+	}
+	return n > 0 && okAll
 }
